@@ -81,7 +81,9 @@ def runCase (s : Schema) (line : String) : String :=
         let o := oracle (arr j "log")
         match planFields s (implCollector s d.frags vs isQuery) 100000 root d.sels with
         | none => "out-of-fuel"
-        | some fields =>
+        | some fields0 =>
+          let around := (j.getObjValAs? Bool "around").toOption.getD false
+          let fields := if around then fieldsAround fields0 else fields0
           let (init, groups) := D.execDeferred o rootName fields
           let allSt := groups.foldl (fun a g => a.append g.st) init.st
           -- the C13 statement itself (Model/DeferSpec.lean) on the implementation's payloads in arrival order
